@@ -178,6 +178,16 @@ def body(ch, ctx):
         ctx.fail("query-raised", dict(sig, exc=type(e).__name__), featuretype=ft, strand=strand, order_by=ob, message=str(e)[:200])
         return
     ids = [f.id for f in got]
+    # the same call with positional arguments in the documented order
+    try:
+        if method == "all_features":
+            pos = [f.id for f in db.all_features(None, strand, ft, ob, reverse)]
+        else:
+            pos = [f.id for f in db.features_of_type(ft, None, strand, ob, reverse)]
+        same = pos == ids if (ob is not None and single) else sorted(pos) == sorted(ids)
+        ctx.check(same, "positional-call-differs-from-keyword-call", sig, featuretype=ft, strand=strand, order_by=ob, keyword=ids[:10], positional=pos[:10])
+    except Exception as e:
+        ctx.fail("query-raised", dict(sig, exc=type(e).__name__, positional=True), featuretype=ft, strand=strand, order_by=ob, message=str(e)[:200])
     ctx.check(sorted(ids) == sorted(m["id"] for m in exp), "result-set-differs", sig, featuretype=ft, strand=strand, order_by=ob,
               got=ids, expected=[m["id"] for m in exp])
     if ob is None:
